@@ -259,11 +259,13 @@ class Path(object):
                 kids = [e.arg(i) for i in range(n)]
                 seq_kid = any(z3.is_seq(c) for c in kids)
                 if seq_kid:
-                    if k == z3.Z3_OP_EQ and z3.is_seq(kids[0]) and z3.is_seq(kids[1]):
-                        r = z3.Bool("seqeq!%d" % key)
-                        self._side(z3.Implies(r, self.len_of(kids[0]) == self.len_of(kids[1])))
-                    elif k == z3.Z3_OP_DISTINCT and n == 2:
-                        r = z3.Bool("seqne!%d" % key)
+                    if k in (z3.Z3_OP_EQ, z3.Z3_OP_DISTINCT) and n == 2 and z3.is_seq(kids[0]) \
+                            and z3.is_seq(kids[1]):
+                        # one atom per unordered pair: a == b, b == a and a != b talk about the same fact
+                        a, b = sorted((kids[0].get_id(), kids[1].get_id()))
+                        at = z3.Bool("seqeq!%d_%d" % (a, b))
+                        self._side(z3.Implies(at, self.len_of(kids[0]) == self.len_of(kids[1])))
+                        r = at if k == z3.Z3_OP_EQ else z3.Not(at)
                     elif z3.is_bool(e):
                         r = z3.Bool("seqatom!%d" % key)
                     elif z3.is_int(e):
@@ -424,6 +426,9 @@ class Path(object):
         """Nondeterministic choice among n alternatives (no solver)."""
         if n <= 1:
             return 0
+        forced = getattr(self.session, 'force', None)
+        if forced and label in forced and forced[label] < n:
+            return forced[label]        # this unit explores one slice of the choice (driver split)
         if self.pos < len(self.decisions):
             d = self.decisions[self.pos]
             self.pos += 1
@@ -475,7 +480,8 @@ class Path(object):
         """Record a violated obligation for which the path itself is the witness."""
         self.session.vc_count += 1
         if os.environ.get("VERIF_DEBUG_FAIL"):
-            print("FAIL", name, detail, [e for e in self.trace if e[0] in ('call', 'return', 'raise', 'send')][:14])
+            full = os.environ.get("VERIF_DEBUG_FAIL") == "2"
+            print("FAIL", name, detail, [e for e in self.trace if full or e[0] in ('call', 'return', 'raise', 'send')][:60 if full else 14])
         prior = [r for r in self.session.results.get(name, []) if r.status == 'failed' and r.model is not None]
         if len(prior) >= 3:
             return      # already witnessed three times: further witnesses add nothing
@@ -1112,8 +1118,11 @@ class Interp(object):
         if isinstance(v, Obj):
             if v.meta.get('track_reads') and name in v.meta['track_reads']:
                 self.path.event('field.read', id(v), name)
-            if name in v.fields:
-                return v.fields[name]
+            if name in v.fields and name not in self._property_names(v.cls):
+                r = v.fields[name]
+                if isinstance(r, list) and v.meta.get('db'):
+                    self.path.ghost.setdefault('owned_lists', {})[id(r)] = (v, name)
+                return r
             lazy = v.meta.get('lazy')
             if lazy and name in lazy:
                 lazy[name](self, v)
@@ -1163,6 +1172,22 @@ class Interp(object):
         except AttributeError as e:
             self.raise_py(AttributeError, *e.args)
         return r
+
+    _PROPS = {}
+
+    def _property_names(self, cls):
+        """Names that are data descriptors (properties) of cls: they win over instance fields."""
+        p = Interp._PROPS.get(cls)
+        if p is None:
+            p = set()
+            for k in cls.__mro__:
+                if not (k.__module__ or '').startswith(('kmip.', 'contracts')):
+                    continue        # library properties (Thread.name): the kind's field is their model
+                for n, a in k.__dict__.items():
+                    if isinstance(a, property):
+                        p.add(n)
+            Interp._PROPS[cls] = p
+        return p
 
     def _class_getattr(self, obj, cls, name, mro):
         for k in mro:
@@ -1246,6 +1271,11 @@ class Interp(object):
         elif isinstance(target, ast.Subscript):
             obj = self.eval(target.value, env)
             if isinstance(target.slice, ast.Slice):
+                sl = target.slice
+                if isinstance(obj, list) and sl.lower is None and sl.upper is None and sl.step is None:
+                    self.models.note_list_mutation(self, obj)
+                    obj[:] = self.iterate_concrete(value)
+                    return
                 raise OutOfFragment("slice assignment")
             idx = self.eval(target.slice, env)
             self.models.setitem(self, obj, idx, value)
